@@ -539,8 +539,8 @@ func (e *SpecEnv) eqValues(a, b Value, n ast.Node) Term {
 		if _, ok := b.(NilV); ok {
 			return True
 		}
-		if _, ok := b.(PtrV); ok {
-			return False
+		if y, ok := b.(PtrV); ok {
+			return ptrIsNil(e.cur, y)
 		}
 	case OpaqueV:
 		if y, ok := b.(OpaqueV); ok {
@@ -560,7 +560,7 @@ func (e *SpecEnv) eqValues(a, b Value, n ast.Node) Term {
 			}
 		}
 		if _, ok := b.(NilV); ok {
-			return False
+			return ptrIsNil(e.cur, x)
 		}
 	}
 	e.fail(n, "cannot compare %s with %s", describe(a), describe(b))
